@@ -32,4 +32,33 @@ func (r RowUpdate) Delete() bool {
 func (r *RowUpdate) FromRowUpdate2(ru2 RowUpdate2) {
 	r.Old = ru2.Old
 	r.New = ru2.New
+	if ru2.Modify == nil || ru2.New == nil {
+		return
+	}
+	// the new row leaves out columns holding their default value; a column
+	// that changed TO its default value has to be reported nevertheless
+	var full Row
+	for column, diff := range *ru2.Modify {
+		if _, ok := (*ru2.New)[column]; ok {
+			continue
+		}
+		if full == nil {
+			full = make(Row, len(*ru2.New)+1)
+			for k, v := range *ru2.New {
+				full[k] = v
+			}
+		}
+		switch diff.(type) {
+		case OvsSet:
+			full[column] = OvsSet{GoSet: []interface{}{}}
+		case OvsMap:
+			full[column] = OvsMap{GoMap: map[interface{}]interface{}{}}
+		default:
+			// the difference of an atomic column is its new value
+			full[column] = diff
+		}
+	}
+	if full != nil {
+		r.New = &full
+	}
 }
